@@ -11,6 +11,8 @@
 #[cfg(feature = "c-api")]
 pub mod c_api;
 pub mod haystack;
+#[cfg(j2inn_libhaystack_verif)]
+pub mod verif_hooks;
 
 pub use haystack::*;
 
